@@ -1053,10 +1053,9 @@ class BaseDAGExecution(Generic[P, RVDAG]):
         Path(self.cache_in).parent.mkdir(parents=True, exist_ok=True)
         with open(self.cache_in, "wb") as f:
             if self.cache_deps_of is not None:
-                non_cacheable_ids: Set[Identifier] = set()
-                for aliases in self.cache_deps_of:
-                    ids = self.dag.alias_to_ids(aliases)
-                    non_cacheable_ids = non_cacheable_ids.union(ids)
+                # the aliases were resolved to ids in __post_init__: resolving these ids again as aliases
+                #  would let a tag spelled like one of them win over the id
+                non_cacheable_ids: Set[Identifier] = set(self.cache_deps_of)  # type: ignore[arg-type]
 
                 to_cache_results = {
                     id_: res for id_, res in results.items() if id_ not in non_cacheable_ids
